@@ -267,6 +267,12 @@ int main(int argc, char *argv[])
 		}
 		fflush(o); return 0;
 	}
+	if (argc > 2 && !strcmp(argv[2], "uids")) {
+		/* the 32-bit ids the daemon's table is keyed by, for candidate UID strings (input selection for C11) */
+		long n = argc > 3 ? atol(argv[3]) : 100000;
+		for (long i = 0; i < n; i++) { char b[32]; int l = sprintf(b, "u%ld", i); printf("%s %lu\n", b, (unsigned long)obint(b, l)); }
+		return 0;
+	}
 	meself.uid = (argc > 2 && !strcmp(argv[2], "user")) ? 1000 : 0;
 	meself.pid = getpid();
 	echsx = "/nonexistent/echsx";
